@@ -44,6 +44,20 @@ def readUnbuffered (offer : Nat) (dgrams : List Bytes) : Option (Bytes × List B
 /-- the write half: one `send` per `write`, carrying exactly the bytes handed over -/
 def write (frame : Bytes) (sent : List Bytes) : List Bytes := sent ++ [frame]
 
+/-- `read_exact(n)`: the caller keeps ONE buffer across as many reads as it takes to fill it; every read appends to
+what is already there (the adaptor must honour a partly filled buffer). `fuel` bounds the number of reads (each serves at
+least one byte when anything is available). Returns the `n` bytes, the adaptor buffer afterwards, the datagrams still to
+arrive; `none` = the data runs out first (the call would block). -/
+def readExact : Nat → Bytes → Nat → List Bytes → Bytes → Option (Bytes × Bytes × List Bytes)
+  | _, buf, 0, ds, acc => some (acc, buf, ds)
+  | 0, _, _ + 1, _, _ => none
+  | fuel + 1, buf, n + 1, ds, acc =>
+    match read buf (n + 1) ds with
+    | none => none
+    | some (chunk, buf', ds') =>
+      if chunk.isEmpty then none
+      else readExact fuel buf' (n + 1 - chunk.length) ds' (acc ++ chunk)
+
 /-- what the owner of an adaptor can do with it: read with an offered slice size, flush the write half,
 write one frame. The adaptor's buffer is a *receive-side* hold-back buffer only: neither `flush` (a no-op;
 sends are unbuffered) nor `write` touches it. -/
@@ -54,6 +68,8 @@ inductive AOp where
   /-- a read attempted while nothing is buffered and no datagram has arrived: the receive call fails (time-out,
   would-block) or stays pending, and nothing changes -/
   | idle
+  /-- `read_exact(n)` -/
+  | rx (n : Nat)
 deriving Repr
 
 /-- adaptor state: hold-back buffer, datagrams still to arrive, datagrams sent so far -/
@@ -74,6 +90,12 @@ def runOps : ASt → List AOp → List Bytes × ASt
       (chunk :: r.1, r.2)
   | s, .fl :: ops => runOps s ops
   | s, .idle :: ops => runOps s ops
+  | s, .rx n :: ops =>
+    match readExact (n + 1) s.buf n s.ds [] with
+    | none => ([], s)
+    | some (chunk, buf', ds') =>
+      let r := runOps { s with buf := buf', ds := ds' } ops
+      (chunk :: r.1, r.2)
   | s, .wr f :: ops => runOps { s with sent := write f s.sent } ops
 
 end Insim.Udp
